@@ -51,7 +51,9 @@ def judge_replay(chk, prop, beh, results, tag):
         st["with_guards"] += "GCreate" in ops
         keys = [s["k"] for s in b["steps"] if s["op"] in ("Merge", "GCreate")]
         st["with_key_collision"] += len(keys) != len(set(keys))
-        st["worker_kinds_skipped"] += "worker" not in r.get("kinds", KINDS)
+        # the two threaded arrangements alternate between histories; both missing = switched off after a
+        # worker thread failed to terminate
+        st["worker_kinds_skipped"] += not ({"worker", "tee_worker"} & set(r.get("kinds", KINDS)))
         chk.evaluations += 1
         chk.nontrivial.add(tag + ":" + json.dumps([[s["op"], s["g"], s["k"], s["v"]] for s in b["steps"]]))
         if r["mismatches"]:
